@@ -9,8 +9,9 @@ sys.path.insert(0, os.path.join(ROOT, "tools"))
 from props import PROPS  # noqa: E402
 
 ALL = ["C%02d" % i for i in range(1, 21)]
-BASELINE = ("cd /repo && cargo nextest run --workspace --no-fail-fast --test-threads 8 --offline "
-            "|| cargo test --workspace --no-fail-fast --offline")
+BASELINE = ("cd /repo && export RUSTUP_TOOLCHAIN=1.88.0 && (cargo nextest run --workspace --no-fail-fast "
+            "--tool-config-file pb:/w/lib/nextest.toml --profile pb --test-threads 8 --offline "
+            "|| cargo test --workspace --no-fail-fast --offline)")
 
 checks = []
 for pid in sorted(PROPS):
